@@ -12,7 +12,7 @@
     [fixed5 = false] is the pinned tree (copy-out offset and the caller's value pointer count rows).
     No proofs in this file. *)
 From Coq Require Import List ZArith Bool Arith.
-From Carquet Require Import Base.Res Reader.CursorSpec.
+From Carquet Require Import Base.Res Gen.Reader_gen Reader.CursorSpec.
 Import ListNotations.
 Local Open Scope Z_scope.
 
@@ -211,13 +211,13 @@ Definition read_batch (st : cstate) (max_values : Z) (want_def : bool) : res (cs
     if cs_remaining st <=? 0 then Ok (st, {| br_ret := 0; br_vals := vbuf; br_levels := lbuf; br_dense := 0 |})
     else rb_loop (S (Z.to_nat max_values)) st max_values want_def 0 0 vbuf lbuf.
 
-(** the while loop of carquet_column_skip: read-and-discard in chunks of 1024 with def_levels = NULL *)
+(** the while loop of carquet_column_skip: read-and-discard in chunks of Reader_skip_chunk (regenerated from column_reader.c: 1024) with def_levels = NULL *)
 Fixpoint skip_loop (fuel : nat) (st : cstate) (num_values total : Z) : res (cstate * Z) :=
   match fuel with
   | O => Fault OutOfFuel
   | S f =>
     if (total <? num_values) && (cs_remaining st >? 0) then
-      let to_skip := if num_values - total >? 1024 then 1024 else num_values - total in
+      let to_skip := if num_values - total >? Reader_skip_chunk then Reader_skip_chunk else num_values - total in
       match read_batch st to_skip false with
       | Fault ft => Fault ft | Err c => Err c
       | Ok (st1, r) =>
